@@ -508,7 +508,7 @@ func (s *splitter) node(m *model.Node, keyLeaves map[string]bool, depth int) (*m
 			case 3:
 				a.Leaf[name] = cloneVal(v)
 				nv := v
-				if hasTwin && rapid.Bool().Draw(s.rt, "enumtwin") {
+				if hasTwin {
 					nv = twin
 				}
 				for tries := 0; tries < 6 && nv.Canon() == v.Canon(); tries++ {
